@@ -235,10 +235,12 @@ impl World {
     }
 
     pub fn avx2_hidden(&self) -> bool {
-        !matches!(self.env.cpu, Cpu::Host)
+        // a binary compiled with +avx2 cannot run on a CPU without it: in that
+        // build flavour the simulated CPU is always the host
+        !self.compile_avx2 && !matches!(self.env.cpu, Cpu::Host)
     }
     pub fn sse2_hidden(&self) -> bool {
-        matches!(self.env.cpu, Cpu::NoSimd)
+        !self.compile_avx2 && matches!(self.env.cpu, Cpu::NoSimd)
     }
 
     /// Which ifunc backend the dispatcher must pick in this episode.
